@@ -24,7 +24,8 @@ use duke::visitor::method::code::{CodeInterests, CodeVisitor, StackMapData};
 use duke::visitor::method::{MethodInterests, MethodVisitor};
 use duke::visitor::MultiClassVisitor;
 use java_string::JavaString;
-use crate::values::{ck, canon_annotations, canon_element, canon_inner_classes, canon_enclosing_method, canon_class, canon_classes, canon_packages, canon_parameters};
+use crate::values::{ck, canon_annotations, canon_element, canon_inner_classes, canon_enclosing_method, canon_class, canon_classes, canon_packages, canon_parameters,
+	canon_type_annotations, canon_code_type_annotations, ValN};
 
 pub type Mask = Vec<&'static str>;
 
@@ -118,12 +119,12 @@ pub fn cksum(bytes: &[u8]) -> u64 { bytes.iter().fold(7u64, |a, &b| (a * 31 + b 
 pub enum Ev {
 	/// a visit caused by one attribute; raw = the bytes handed over verbatim (unknown attributes, SourceDebugExtension)
 	/// val = the parsed value as numbers (values.rs), for the attributes whose value the Coq model parses too; empty otherwise
-	Attr { name: String, raw: Option<Vec<u8>>, content: String, val: Vec<u64> },
+	/// cval = the same for a value that speaks of labels (type annotations inside Code): resolved to numbers when the case is printed
+	Attr { name: String, raw: Option<Vec<u8>>, content: String, val: Vec<u64>, cval: Vec<ValN> },
 	Flags(bool, bool),
 	/// a table collected over the attribute loop and visited after it; one item per entry with the
 	/// attribute kind it comes from (0 LineNumberTable, 1 LocalVariableTable, 2 LocalVariableTypeTable);
-	/// `optional` is only set by the projection oracle (an empty table may or may not be visited)
-	Deferred { slot: &'static str, items: Vec<(u8, String)>, optional: bool, rows: Vec<RowN> },
+	Deferred { slot: &'static str, items: Vec<(u8, String)>, rows: Vec<RowN> },
 	CodeDeclined,
 	Code { max_stack: u16, max_locals: u16, insns: Vec<Insn>, last_label: bool, exc: String, exc_rows: Vec<RowN>, es: Vec<Ev> },
 	Rc { hdr: String, es: Option<Vec<Ev>> },
@@ -131,12 +132,12 @@ pub enum Ev {
 	Method { hdr: String, es: Option<Vec<Ev>> },
 }
 
-fn attr(name: &str, content: String) -> Ev { Ev::Attr { name: name.to_owned(), raw: None, content, val: vec![] } }
-fn attr_v(name: &str, content: String, val: Vec<u64>) -> Ev { Ev::Attr { name: name.to_owned(), raw: None, content, val } }
+fn attr(name: &str, content: String) -> Ev { Ev::Attr { name: name.to_owned(), raw: None, content, val: vec![], cval: vec![] } }
+fn attr_v(name: &str, content: String, val: Vec<u64>) -> Ev { Ev::Attr { name: name.to_owned(), raw: None, content, val, cval: vec![] } }
 fn unknown(a: Attribute) -> Ev {
 	// the name as the bytes of its modified-UTF-8 form (one char per byte): that is what the pool holds and the model compares
 	let name: String = a.name.to_modified_utf8().iter().map(|&b| b as char).collect();
-	Ev::Attr { name, raw: Some(a.bytes.clone()), content: String::new(), val: vec![] }
+	Ev::Attr { name, raw: Some(a.bytes.clone()), content: String::new(), val: vec![], cval: vec![] }
 }
 fn vis(visible: bool, a: &'static str, b: &'static str) -> &'static str { if visible { a } else { b } }
 
@@ -188,7 +189,7 @@ impl ClassVisitor for RecClass {
 	fn visit_source_debug_extension(&mut self, x: JavaString) -> Result<()> {
 		// the reader hands over the attribute's bytes decoded from modified UTF-8; re-encoding gives the bytes back
 		let raw = Some(x.to_modified_utf8().into_owned());
-		self.evs.push(Ev::Attr { name: "SourceDebugExtension".into(), raw, content: format!("{x:?}"), val: vec![] });
+		self.evs.push(Ev::Attr { name: "SourceDebugExtension".into(), raw, content: format!("{x:?}"), val: vec![], cval: vec![] });
 		Ok(())
 	}
 	fn visit_annotations(self, visible: bool) -> Result<(Self::AnnotationsResidual, Self::AnnotationsVisitor)> { Ok(((self, visible), Vec::new())) }
@@ -198,7 +199,7 @@ impl ClassVisitor for RecClass {
 	}
 	fn visit_type_annotations(self, visible: bool) -> Result<(Self::TypeAnnotationsResidual, Self::TypeAnnotationsVisitor)> { Ok(((self, visible), Vec::new())) }
 	fn finish_type_annotations((mut this, visible): Self::TypeAnnotationsResidual, v: Self::TypeAnnotationsVisitor) -> Result<Self> {
-		this.evs.push(attr(vis(visible, "RuntimeVisibleTypeAnnotations", "RuntimeInvisibleTypeAnnotations"), format!("{v:?}")));
+		this.evs.push(attr_v(vis(visible, "RuntimeVisibleTypeAnnotations", "RuntimeInvisibleTypeAnnotations"), format!("{v:?}"), canon_type_annotations(&v)));
 		Ok(this)
 	}
 	fn visit_module(&mut self, x: Module) -> Result<()> { self.evs.push(attr("Module", format!("{x:?}"))); Ok(()) }
@@ -263,8 +264,8 @@ pub fn events_of_field(f: &Field) -> Vec<Ev> {
 	if let Some(x) = &f.signature { es.push(attr_v("Signature", format!("{x:?}"), vec![ck(x.as_inner())])); }
 	if !f.runtime_visible_annotations.is_empty() { es.push(attr_v("RuntimeVisibleAnnotations", format!("{:?}", f.runtime_visible_annotations), canon_annotations(&f.runtime_visible_annotations))); }
 	if !f.runtime_invisible_annotations.is_empty() { es.push(attr_v("RuntimeInvisibleAnnotations", format!("{:?}", f.runtime_invisible_annotations), canon_annotations(&f.runtime_invisible_annotations))); }
-	if !f.runtime_visible_type_annotations.is_empty() { es.push(attr("RuntimeVisibleTypeAnnotations", format!("{:?}", f.runtime_visible_type_annotations))); }
-	if !f.runtime_invisible_type_annotations.is_empty() { es.push(attr("RuntimeInvisibleTypeAnnotations", format!("{:?}", f.runtime_invisible_type_annotations))); }
+	if !f.runtime_visible_type_annotations.is_empty() { es.push(attr_v("RuntimeVisibleTypeAnnotations", format!("{:?}", f.runtime_visible_type_annotations), canon_type_annotations(&f.runtime_visible_type_annotations))); }
+	if !f.runtime_invisible_type_annotations.is_empty() { es.push(attr_v("RuntimeInvisibleTypeAnnotations", format!("{:?}", f.runtime_invisible_type_annotations), canon_type_annotations(&f.runtime_invisible_type_annotations))); }
 	for a in &f.attributes { es.push(unknown(a.clone())); }
 	canon_sort(&mut es);
 	es.push(Ev::Flags(f.has_deprecated_attribute, f.has_synthetic_attribute));
@@ -287,7 +288,7 @@ pub fn events_of_rc(rc: &RecordComponent) -> Vec<Ev> {
 		let af = dbg_fields(&a);
 		let name = af.iter().find(|(n, _)| n == "name").map(|(_, v)| v.trim_matches('"').to_owned()).unwrap_or_default();
 		let bytes = af.iter().find(|(n, _)| n == "bytes").map(|(_, v)| dbg_list(v).iter().filter_map(|x| x.trim().parse::<u8>().ok()).collect::<Vec<u8>>()).unwrap_or_default();
-		es.push(Ev::Attr { name, raw: Some(bytes), content: String::new(), val: vec![] });
+		es.push(Ev::Attr { name, raw: Some(bytes), content: String::new(), val: vec![], cval: vec![] });
 	}
 	canon_sort(&mut es);
 	es
@@ -363,7 +364,7 @@ impl MethodVisitor for RecMethod {
 	}
 	fn visit_type_annotations(self, visible: bool) -> Result<(Self::TypeAnnotationsResidual, Self::TypeAnnotationsVisitor)> { Ok(((self, visible), Vec::new())) }
 	fn finish_type_annotations((mut this, visible): Self::TypeAnnotationsResidual, v: Self::TypeAnnotationsVisitor) -> Result<Self> {
-		this.evs.push(attr(vis(visible, "RuntimeVisibleTypeAnnotations", "RuntimeInvisibleTypeAnnotations"), format!("{v:?}")));
+		this.evs.push(attr_v(vis(visible, "RuntimeVisibleTypeAnnotations", "RuntimeInvisibleTypeAnnotations"), format!("{v:?}"), canon_type_annotations(&v)));
 		Ok(this)
 	}
 	fn visit_annotation_default(self) -> Result<(Self::AnnotationDefaultResidual, Self::AnnotationDefaultVisitor)> { Ok((self, Vec::new())) }
@@ -379,7 +380,7 @@ impl MethodVisitor for RecMethod {
 	fn visit_unknown_attribute(&mut self, a: Self::UnknownAttribute) -> Result<()> { self.evs.push(unknown(a)); Ok(()) }
 	fn visit_code(&mut self) -> Result<Option<Self::CodeVisitor>> {
 		match &self.code {
-			Some(m) => Ok(Some(RecCode { mask: m.clone(), max: (0, 0), insns: vec![], last: None, exc: String::new(), es: vec![], raw_exc: vec![], raw_lines: vec![], raw_lvs: vec![] })),
+			Some(m) => Ok(Some(RecCode { mask: m.clone(), max: (0, 0), insns: vec![], last: None, exc: String::new(), es: vec![], raw_exc: vec![], raw_lines: vec![], raw_lvs: vec![], raw_tas: vec![] })),
 			None => { self.evs.push(Ev::CodeDeclined); Ok(None) }
 		}
 	}
@@ -388,7 +389,7 @@ impl MethodVisitor for RecMethod {
 
 // ---------------------------------------------------------------- code level
 pub struct RecCode { mask: Mask, max: (u16, u16), insns: Vec<(Option<Label>, Option<String>, String)>, last: Option<Label>, exc: String, es: Vec<Ev>,
-	raw_exc: Vec<Exception>, raw_lines: Vec<Vec<(Label, u16)>>, raw_lvs: Vec<Vec<Lv>> }
+	raw_exc: Vec<Exception>, raw_lines: Vec<Vec<(Label, u16)>>, raw_lvs: Vec<Vec<Lv>>, raw_tas: Vec<Vec<TypeAnnotation<TargetInfoCode>>> }
 
 impl CodeVisitor for RecCode {
 	type TypeAnnotationsVisitor = Vec<TypeAnnotation<TargetInfoCode>>;
@@ -405,19 +406,21 @@ impl CodeVisitor for RecCode {
 	fn visit_last_label(&mut self, last_label: Label) -> Result<()> { self.last = Some(last_label); Ok(()) }
 	fn visit_line_numbers(&mut self, x: Vec<(Label, u16)>) -> Result<()> {
 		// rows: index into raw_lines, resolved in into_event (the instructions may be visited after the tables)
-		self.es.push(Ev::Deferred { slot: "line_number_table", items: x.iter().map(|e| (0, format!("{e:?}"))).collect(), optional: false, rows: vec![] });
+		self.es.push(Ev::Deferred { slot: "line_number_table", items: x.iter().map(|e| (0, format!("{e:?}"))).collect(), rows: vec![] });
 		self.raw_lines.push(x);
 		Ok(())
 	}
 	fn visit_local_variables(&mut self, x: Vec<Lv>) -> Result<()> {
 		// the reader builds one entry per LocalVariableTable row (descriptor) and one per LocalVariableTypeTable row (signature)
-		self.es.push(Ev::Deferred { slot: "local_variable_table", items: x.iter().map(|e| (if e.descriptor.is_some() { 1 } else { 2 }, format!("{e:?}"))).collect(), optional: false, rows: vec![] });
+		self.es.push(Ev::Deferred { slot: "local_variable_table", items: x.iter().map(|e| (if e.descriptor.is_some() { 1 } else { 2 }, format!("{e:?}"))).collect(), rows: vec![] });
 		self.raw_lvs.push(x);
 		Ok(())
 	}
 	fn visit_type_annotations(self, visible: bool) -> Result<(Self::TypeAnnotationsResidual, Self::TypeAnnotationsVisitor)> { Ok(((self, visible), Vec::new())) }
 	fn finish_type_annotations((mut this, visible): Self::TypeAnnotationsResidual, v: Self::TypeAnnotationsVisitor) -> Result<Self> {
+		// the value: index into raw_tas, resolved in into_event (the labels are placed by the instructions, which may be visited later)
 		this.es.push(attr(vis(visible, "RuntimeVisibleTypeAnnotations", "RuntimeInvisibleTypeAnnotations"), format!("{v:?}")));
+		this.raw_tas.push(v);
 		Ok(this)
 	}
 	fn visit_unknown_attribute(&mut self, a: Self::UnknownAttribute) -> Result<()> { self.es.push(unknown(a)); Ok(()) }
@@ -444,10 +447,14 @@ impl RecCode {
 			let ls: Vec<Pos> = t.match_indices("Label { id: ").map(|(i, _)| { let e = t[i..].find('}').map(|k| i + k + 1).unwrap_or(t.len()); by_id.get(&t[i..e]).copied().unwrap_or(Pos::Unknown) }).collect();
 			(ls.first().copied().unwrap_or(Pos::Unknown), ls.get(1).copied().unwrap_or(Pos::Unknown))
 		};
-		let (mut lines, mut lvs) = (self.raw_lines.iter(), self.raw_lvs.iter());
+		let (mut lines, mut lvs, mut tas) = (self.raw_lines.iter(), self.raw_lvs.iter(), self.raw_tas.iter());
 		let es = self.es.into_iter().map(|e| match e {
-			Ev::Attr { name, raw, content, val } => Ev::Attr { name, raw, content: fix(&content), val },
-			Ev::Deferred { slot, items, optional, .. } => {
+			Ev::Attr { name, raw: None, content, val, .. } if name.ends_with("TypeAnnotations") => {
+				let cval = tas.next().map(|x| canon_code_type_annotations(x, &at, &range)).unwrap_or_default();
+				Ev::Attr { name, raw: None, content: fix(&content), val, cval }
+			}
+			Ev::Attr { name, raw, content, val, cval } => Ev::Attr { name, raw, content: fix(&content), val, cval },
+			Ev::Deferred { slot, items, .. } => {
 				let rows: Vec<RowN> = if slot == "line_number_table" {
 					lines.next().map(|x| x.iter().map(|(l, n)| RowN::Line(at(l), *n)).collect()).unwrap_or_default()
 				} else {
@@ -457,7 +464,7 @@ impl RecCode {
 						RowN::Var { kind: if lv.descriptor.is_some() { 1 } else { 2 }, start, end, name: cksum(&lv.name.as_inner().to_modified_utf8()), desc, index: lv.index.index }
 					}).collect()).unwrap_or_default()
 				};
-				Ev::Deferred { slot, items: items.into_iter().map(|(k, t)| (k, fix(&t))).collect(), optional, rows }
+				Ev::Deferred { slot, items: items.into_iter().map(|(k, t)| (k, fix(&t))).collect(), rows }
 			}
 			e => e,
 		}).collect();
@@ -604,10 +611,10 @@ impl CodeVisitor for LiteCode {
 	// visit_instruction: the trait's default
 	fn visit_last_label(&mut self, _: Label) -> Result<()> { Ok(()) }
 	fn visit_line_numbers(&mut self, x: Vec<(Label, u16)>) -> Result<()> {
-		self.es.push(Ev::Deferred { slot: "line_number_table", items: x.iter().map(|e| (0, strip_labels(&format!("{e:?}")))).collect(), optional: false, rows: vec![] }); Ok(())
+		self.es.push(Ev::Deferred { slot: "line_number_table", items: x.iter().map(|e| (0, strip_labels(&format!("{e:?}")))).collect(), rows: vec![] }); Ok(())
 	}
 	fn visit_local_variables(&mut self, x: Vec<Lv>) -> Result<()> {
-		self.es.push(Ev::Deferred { slot: "local_variable_table", items: x.iter().map(|e| (if e.descriptor.is_some() { 1 } else { 2 }, strip_labels(&format!("{e:?}")))).collect(), optional: false, rows: vec![] }); Ok(())
+		self.es.push(Ev::Deferred { slot: "local_variable_table", items: x.iter().map(|e| (if e.descriptor.is_some() { 1 } else { 2 }, strip_labels(&format!("{e:?}")))).collect(), rows: vec![] }); Ok(())
 	}
 	fn visit_type_annotations(self, _: bool) -> Result<(Self, ())> { Ok((self, ())) }
 	fn finish_type_annotations(this: Self, _: ()) -> Result<Self> { Ok(this) }
